@@ -142,6 +142,8 @@ struct LruModel {
 
 pub struct ReuseOracle {
     modes: Modes,
+    /// a snapshot/restore happened earlier in the run
+    restored: bool,
     prog: Program,
     time: u64,
     rev: u64,
@@ -206,6 +208,7 @@ impl ReuseOracle {
             seen_discard: BTreeSet::new(),
             lru: LruModel { cap: 4, ..Default::default() },
             im: InternModel::default(),
+            restored: false,
         }
     }
 
@@ -320,6 +323,11 @@ impl ReuseOracle {
                 }
                 if why {
                     out.bump("reexec_justified");
+                } else if self.restored && rec.reads.iter().any(|x| matches!(x, Read::Ts { .. })) {
+                    // recorded finding (C26): serialization stamps every tracked struct as updated in
+                    // the snapshot revision, so readers of struct fields re-execute after a restore
+                    // although nothing they read changed
+                    out.viol("restored_tracked_struct_fields_stale", step, format!("{lk:?} ({kind:?}) re-executed after a restore although its reads did not change; reads={:?}", rec.reads));
                 } else {
                     out.viol(
                         "unjustified_reexecution",
@@ -726,6 +734,7 @@ impl Oracle for ReuseOracle {
                     r.coarse = true;
                 }
             }
+            self.restored = true;
             out.bump("restore_seen_by_reuse_oracle");
         }
         if self.modes.lru {
